@@ -932,13 +932,18 @@ func c7OpenMgr(dir string, all []*c7Snap, t *c7Tracker) (c7SnapObs, raft.Snapsho
 	if meta != raft.NilSnapshotMetadata {
 		o.has = true
 		o.t, o.i = meta.LastTerm, meta.LastIndex
-		rd := m.GetSnapshot()
-		b, rerr := ioutil.ReadAll(rd)
-		rd.Close()
-		if rerr != nil {
-			o.sid, o.nch = -2, -2
+		// GetSnapshot would log.Fatalf if the selected file is missing or unreadable: look first
+		if _, _, perr := c7ReadSnapFile(filepath.Join(dir, metadataToSnapshotName(meta))); perr != nil {
+			o.sid, o.nch = -3, -3
 		} else {
-			o.sid, o.nch = c7Identify(all, o.t, o.i, b)
+			rd := m.GetSnapshot()
+			b, rerr := ioutil.ReadAll(rd)
+			rd.Close()
+			if rerr != nil {
+				o.sid, o.nch = -2, -2
+			} else {
+				o.sid, o.nch = c7Identify(all, o.t, o.i, b)
+			}
 		}
 	}
 	ents, _ := ioutil.ReadDir(dir)
